@@ -6,16 +6,16 @@ from common import *
 
 ID = 'C12'
 PKG = 'hashio'
-PKG_OF = {'VerifC12Verify': 'control', 'VerifC12BadHash': 'control', 'VerifC12Truncated': 'control'}
+PKG_OF = {'VerifC12Verify': 'control', 'VerifC12BadHash': 'control', 'VerifC12Truncated': 'control', 'VerifC12WrongAlg': 'control'}
 REPLAY_TIMEOUT_MS = 120000
-ROOTS = [MOD + '/hashio.' + n for n in ('VerifC12Writers', 'VerifC12Readers', 'VerifC12Source', 'VerifC12Unknown')] + [MOD + '/control.' + n for n in ('VerifC12Verify', 'VerifC12BadHash', 'VerifC12Truncated')]
+ROOTS = [MOD + '/hashio.' + n for n in ('VerifC12Writers', 'VerifC12Readers', 'VerifC12Source', 'VerifC12Unknown')] + [MOD + '/control.' + n for n in ('VerifC12Verify', 'VerifC12BadHash', 'VerifC12Truncated', 'VerifC12WrongAlg')]
 BOUNDS = {'quick': dict(L=3), 'thorough': dict(L=5)}
 META = dict(
     functions_encoded=['hashio.GetHash', 'NewHasher', '(*Hasher).Name/Write/Size/Sum', 'NewHasherWriter(s)', 'NewHasherReader(s)', 'io.MultiWriter / io.TeeReader / io.ReadFull (from SSA)',
                        'control.FileHashFromHasher', '(*FileHash).Verifier', '(*verifier).Write/Close', '(*BestChecksums).Checksums', 'SHA256/SHA512FileHash.UnmarshalControl through control.Unmarshal'],
     stubs=['md5/sha1/sha256/sha512.New: abstract hashers that record every byte written in order; Sum = H_alg(bytes), one uninterpreted function per algorithm',
            'encoding/hex Encode/Decode (arithmetic model)', 'log.Fatalf (process-exit outcome, counted as a violation)', 'reflect model'],
-    bounds={'quick': 'content of 0-3 symbolic bytes, every split into three writes/reads; every ordered selection of 1-3 of the four algorithms (and the single-algorithm constructors) for the unsplit stream and six selections per other split; verifiers: entries from Checksums-Sha256, Checksums-Sha512, the best-checksum selector (each alone) and FileHashFromHasher for all four algorithms, content and recorded-digest preimage of 0-2 symbolic bytes (four length pairs in quick, all nine in thorough); malformed recorded hashes of 1-4 symbolic characters',
+    bounds={'quick': 'content of 0-3 symbolic bytes, every split into three writes/reads, with a length-and-digest checkpoint after every write; every ordered selection of 1-3 of the four algorithms (and the single-algorithm constructors) for the unsplit stream and six selections per other split; verifiers: entries from Checksums-Sha256, Checksums-Sha512, the best-checksum selector (each alone) and FileHashFromHasher for all four algorithms, content and recorded-digest preimage of 0-2 symbolic bytes (four length pairs in quick, all nine in thorough); malformed recorded hashes of 1-4 symbolic characters; recorded hash = the true digest of the content under each of the other three algorithms',
             'thorough': 'content up to 5 bytes'},
     outside_claim=['the digest functions themselves (stdlib, uninterpreted here): the claim is which bytes reach which algorithm, in which order, and how the result is compared'],
     assumptions=[])
@@ -49,6 +49,8 @@ def jobs(tier):
             js.append(dict(name='verify_%d_%d_%d' % (kind, n, m), kind='verify', k=kind, n=n, m=m))
     for kind in range(4):
         js.append(dict(name='badhash_%d' % kind, kind='badhash', k=kind))
+    for kind in range(4):
+        js.append(dict(name='wrongalg_%d' % kind, kind='wrongalg', k=kind))
     return js
 
 
@@ -83,6 +85,14 @@ def run_job(env, job):
         for n in range(0, 7):
             s = symstr('n', n)
             rs.append(run_harness(env, PKG, 'VerifC12Unknown', [s], [z3.ULT(c, 128) for c in s], unwind=64, sample='every ASCII algorithm name of length %d' % n))
+        return merge_results(rs)
+    if k == 'wrongalg':
+        rs = []
+        for n in (0, 1, 2):
+            for walg in range(4):
+                content = symstr('c', n)
+                rs.append(run_harness(env, 'control', 'VerifC12WrongAlg', [job['k'], content, walg], [], unwind=400, timeout_ms=300000,
+                                      sample='entry kind %d: recorded hash = true %s digest of the %d symbolic content bytes' % (job['k'], ['md5', 'sha1', 'sha256', 'sha512'][walg], n)))
         return merge_results(rs)
     if k == 'verify':
         content, other = symstr('c', job['n']), symstr('o', job['m'])
